@@ -11,6 +11,9 @@ KEY_LENS = [0, 1, 2, 7, 8, 9, 10, 11, 12, 13, 14, 15, 16, 17, 20, 21, 22, 29, 30
 KTS = ["bytes", "string", "u64", "i64", "vu64"]
 
 
+RAW_EVERY = 6
+
+
 class Script:
     def __init__(self, idbase=0, design=True, name="h"):
         self.ops = []
@@ -131,6 +134,12 @@ class Script:
         if self.tag:
             d["tag"] = self.tag
         d.update(kw)
+        if opname == "decode":
+            # every RAW_EVERY-th decoded state carries the raw bytes as well (small images only, decided by
+            # the harness): the TLA+ format module decodes them itself (AbyFormat, TOOL.format_*)
+            self.ndecode = getattr(self, "ndecode", 0) + 1
+            if self.ndecode % RAW_EVERY == 1:
+                d["raw"] = True
         self.ops.append(d)
         return d
 
@@ -272,6 +281,7 @@ def gen_l1(seed, idbase=0, nops=3000, nkeys=300, nb=("BucketsSize", 64), kt="byt
     pool = sorted(set(rng.sample(VAL_EDGES, min(40, len(VAL_EDGES))) + SMALL_VALS + LARGE_VALS))
     for _ in range(big):
         pool.append(rng.choice([16383, 16384, 131071, 131072, 131073, 300000]))
+    pool.append(rng.choice([(1 << 21) + 5, 3 << 20]))          # >= 2 MiB: the length field needs 4 bytes
     if huge:
         pool.append(rng.choice([1 << 20, (1 << 24) - 9, 1 << 24]))
     vids = [s.newval(x) for x in pool] + [s.newval(rng.choice(pool[:40])) for _ in range(30)]
@@ -313,7 +323,7 @@ def gen_l1(seed, idbase=0, nops=3000, nkeys=300, nb=("BucketsSize", 64), kt="byt
     return s
 
 
-def gen_reloc(seed, idbase=0, nops=150, width=16384, nkeys=5, name="reloc", kt="bytes"):
+def gen_reloc(seed, idbase=0, nops=150, width=16384, nkeys=5, name="reloc", kt="bytes", snap=False):
     """C08: colliding keys whose records exactly fill their slots, free slots below and file ends
     above an offset-width boundary, so that overwrites move value records, key records and the
     predecessors' key records (relink cascades); decoded state after every update."""
@@ -357,7 +367,15 @@ def gen_reloc(seed, idbase=0, nops=150, width=16384, nkeys=5, name="reloc", kt="
         else:
             s.op("get", h=1, k=rng.choice(allk))
             continue
-        s.op("decode", **dec)
+        if snap:
+            # C03: flush only (no decode, which would flush as well), then the directory as a crash would leave it
+            s.op(rng.choice(["flush", "flush", "sync_data"]), h=1)
+            s.op("copy_dir", **{"from": "d", "to": "snap"})
+            s.op("child_dump", dir="snap", name="m", kt=kt, ks=allk + [bk], **{"as": "C03.snapshot"})
+            s.op("decode", dir="snap", name="m", native=True)
+            s.op("rm_dir", dir="snap")
+        else:
+            s.op("decode", **dec)
         if i % 10 == 9:
             s.op("dump", h=1)
             s.op("stats", h=1)
@@ -585,7 +603,7 @@ def gen_sync(seed, idbase=0, nops=160, nmaps=2, kill=False, name="sync"):
     return s
 
 
-def gen_fault(seed, idbase=0, shape="val", threshold=0, syncop="flush", name="fault", second=None):
+def gen_fault(seed, idbase=0, shape="val", threshold=0, syncop="flush", name="fault", second=None, retry=False):
     """C16: the OS refuses writes beyond `threshold` bytes (RLIMIT_FSIZE) during one flush/sync; full
     buffering, so only the flush writes.  Then: reads, lift, flush again, snapshot."""
     rng = random.Random(seed)
@@ -630,13 +648,21 @@ def gen_fault(seed, idbase=0, shape="val", threshold=0, syncop="flush", name="fa
         s.op(syncop, db=0)
     else:
         s.op(syncop, h=1)
+    if seed % 3 == 0 or retry:
+        # the condition persists: more updates (in place and new), another attempt, then the lift
+        for k in rng.sample(keys, 3):
+            s.op("put", h=1, k=k, v=rng.choice(vids))
+        s.op("get", h=1, k=rng.choice(keys))
+        s.op(syncop if retry else rng.choice(["flush", "sync_data"]), h=1)
+        if retry:
+            s.op("del", h=1, k=rng.choice(keys))
     s.op("rlimit_fsize")                       # lift
     s.op("copy_dir", **{"from": "d", "to": "snapA"})
     s.op("child_dump", dir="snapA", name="m", kt="bytes", **{"as": "C16.reported"})
     s.op("rm_dir", dir="snapA")
     s.op("dump", h=1, **{"as": "C16.view"})     # the in-memory view stays fully correct
     s.op("iter", h=1, flavour="iter")
-    s.op(rng.choice(["flush", "sync_all", "sync_data"]), h=1)
+    s.op(syncop if retry else rng.choice(["flush", "sync_all", "sync_data"]), h=1)
     s.op("copy_dir", **{"from": "d", "to": "snapB"})
     s.op("child_dump", dir="snapB", name="m", kt="bytes", **{"as": "C16.recover"})
     s.op("rm_dir", dir="snapB")
@@ -667,7 +693,7 @@ def fault_thresholds(shape, count, rng):
 
 
 BUCKET_PARAMS_Q = [["BucketsSize", 1], ["BucketsSize", 2], ["BucketsSize", 3], ["BucketsSize", 4], ["BucketsSize", 8], ["BucketsSize", 100],
-                   ["BucketsSize", 65536], ["Capacity", 1], ["Capacity", 7], ["Capacity", 8], ["Capacity", 9], ["Capacity", 100], ["Capacity", 65536]]
+                   ["BucketsSize", 65536], ["BucketsSize", 300], ["BucketsSize", 129], ["BucketsSize", 5000], ["Capacity", 1], ["Capacity", 7], ["Capacity", 8], ["Capacity", 9], ["Capacity", 100], ["Capacity", 65536]]
 BUF_PARAMS = [["Size", 0], ["Size", 1], ["Size", 131072], ["Size", 262144], ["Size", 1048576], ["PerMille", 1000], ["Auto"]]
 
 
@@ -757,6 +783,11 @@ def gen_multi(seed, idbase=0, nops=250, nmaps=3, name="multi"):
                 s.op("map", h=nh, db=1, name=m["name"], kt=m["kt"], params={"buckets": ["BucketsSize", 2]})
             m["hs"].append(nh)
             continue
+        if r < 0.125 and r >= 0.11:
+            # one clone of the database handle goes away while map handles are alive; later a new clone
+            s.op("drop_db", db=1)
+            s.op("clone_db", db=1, **{"from": 0})
+            continue
         if r < 0.11 and len(m["hs"]) > 1:
             h = m["hs"].pop(rng.randrange(len(m["hs"])))
             s.op("drop_h", h=h)
@@ -825,6 +856,33 @@ def gen_manymaps(seed, idbase=0, count=20, kt="string", name="manymaps"):
     return s
 
 
+def gen_iter_pairs(seed, idbase=0, n=128, kt="bytes", name="iterpairs"):
+    """C04: tables with exactly two (then three) occupied buckets: one at a stride border in the front part,
+    one in the last strides, everything in between empty - the shapes where a scan that skips 64 buckets
+    at a time can lose the tail"""
+    rng = random.Random(seed)
+    s = Script(idbase, design=True, name=name)
+    s.op("open_db", db=0, dir="d")
+    s.op("map", h=1, db=0, name="m", kt=kt, params={"buckets": ["BucketsSize", n]})
+    v = s.val(3)
+    firsts = sorted({b for b in (0, 7, 8, 15, 63, 64, 71, 72, 127) if b < n - 64})
+    lasts = sorted({b for b in (n - 1, n - 2, n - 7, n - 8, n - 9, n - 56, n - 57, n - 63, n - 64) if b >= 0})
+    for a in firsts:
+        for b in rng.sample(lasts, min(len(lasts), 4)):
+            if a == b:
+                continue
+            ka, kb = s.key_in_bucket(8, n, a), s.key_in_bucket(9, n, b)
+            s.op("put", h=1, k=ka, v=v)
+            s.op("put", h=1, k=kb, v=v)
+            s.op("iter", h=1, flavour=rng.choice(FLAVOURS))
+            s.op("del", h=1, k=ka)
+            s.op("iter", h=1, flavour=rng.choice(FLAVOURS))
+            s.op("del", h=1, k=kb)
+    s.op("decode", dir="d", name="m", flush_h=1, native=True)
+    s.op("iter", h=1, flavour="iter")
+    return s
+
+
 def gen_readonly(seed, idbase=0, nb=("BucketsSize", 16), state="dense", kt="bytes", nro=60, name="ro"):
     """C15: a state class is built and closed; then a session of read-only calls only; the three files
     must be byte-identical before and after."""
@@ -886,7 +944,7 @@ def gen_readonly(seed, idbase=0, nb=("BucketsSize", 16), state="dense", kt="byte
     return s
 
 
-def gen_twice(seed, idbase=0, nops=150, nb=("BucketsSize", 32), kt="bytes", bufs=None, name="twice", nkeys=20, tail=False):
+def gen_twice(seed, idbase=0, nops=150, nb=("BucketsSize", 32), kt="bytes", bufs=None, name="twice", nkeys=20, tail=False, same_process=False):
     """C18: the same update history with the same parameters is run twice: replica A plainly, replica B in
     another process and directory with read-only calls spliced in; the files must be byte-identical."""
     rng = random.Random(seed)
@@ -964,7 +1022,7 @@ def gen_twice(seed, idbase=0, nops=150, nb=("BucketsSize", 32), kt="bytes", bufs
                 else:
                     s.op("read_fill_buffer", h=1)
         s.op("dump", h=1)
-        s.op("new_process")
+        s.op("drop_all" if same_process else "new_process")
     s.op("digest", dir="dA", name="m", tag="repA")
     s.op("digest", dir="dB", name="m", tag="repB")
     s.op("note", conj="C18.equal", same=["repA", "repB"])
@@ -986,13 +1044,16 @@ def gen_wrongtype(seed, idbase=0, pairs=None, sigvals=4, name="wrongtype"):
     pairs = pairs if pairs is not None else [(a, b) for a in KTS for b in KTS if a != b]
     tagn = 0
 
-    def refused(d, nm, kt, what):
+    def refused(d, nm, kt, what, only=None):
         nonlocal tagn
         tagn += 1
         s.op("digest", dir=d, name=nm, tag="pre%d" % tagn)
         s.op("child_dump", dir=d, name=nm, kt=kt, note=what, ks=[])
         s.op("digest", dir=d, name=nm, tag="post%d" % tagn)
-        s.op("note", conj="C13.unchanged", same=["pre%d" % tagn, "post%d" % tagn])
+        if only:
+            s.op("note", conj="C13.unchanged", same=["pre%d" % tagn, "post%d" % tagn], only=only)
+        else:
+            s.op("note", conj="C13.unchanged", same=["pre%d" % tagn, "post%d" % tagn])
 
     # one map per key type, with a few entries, closed
     s.op("open_db", db=0, dir="d")
@@ -1022,6 +1083,19 @@ def gen_wrongtype(seed, idbase=0, pairs=None, sigvals=4, name="wrongtype"):
             s.op("mutate_file", file="d/m_%s.%s" % (kt, dst), copy_from="bak/m_%s.%s" % (kt, src), map="d/m_" + kt, foreign=True)
             refused("d", "m_" + kt, kt, "the .%s file in place of the .%s file" % (src, dst))
             s.op("mutate_file", file="d/m_%s.%s" % (kt, dst), copy_from="bak/m_%s.%s" % (kt, dst), map="d/m_" + kt, foreign=False)
+    # (2c) one file missing or empty, the others of another key type: still refused, the existing files unchanged
+    for (a, b) in rng.sample([p for p in pairs if SIG2[p[0]] != SIG2[p[1]]], 3):
+        for ext in ("htx", "val", "key"):
+            for how in ("truncate", "remove"):
+                if how == "truncate":
+                    s.op("mutate_file", file="d/m_%s.%s" % (a, ext), truncate=0, map="d/m_" + a, foreign=True)
+                else:
+                    s.op("mutate_file", file="d/m_%s.%s" % (a, ext), remove=True, map="d/m_" + a, foreign=True)
+                # the absent / empty file is not one "created for a key type": the open has to be refused and the
+                # two files that exist must stay as they are (the unchanged tree initialises an empty .key first)
+                refused("d", "m_" + a, b, "%s .%s, opened as %s" % (how, ext, b),
+                        only=[j + 1 for j, x in enumerate(("htx", "key", "val")) if x != ext])
+                s.op("mutate_file", file="d/m_%s.%s" % (a, ext), copy_from="bak/m_%s.%s" % (a, ext), map="d/m_" + a, foreign=False)
     # (3) single-byte mutations of the 16 signature bytes of each file
     a = rng.choice(KTS)
     for ext in ("htx", "key", "val"):
@@ -1068,6 +1142,20 @@ def gen_bulk(seed, idbase=0, nops=200, kt="bytes", nb=("BucketsSize", 16), name=
 
     for i in range(nops):
         r = rng.random()
+        if i % 40 == 0:
+            # a batch that empties the map while absent keys are still pending, then batches on the empty map
+            s.op("dump", h=1)
+            allk = keys[:]
+            rng.shuffle(allk)
+            s.op(rng.choice(["bulk_del", "bulk_del_string"]), h=1, ks=allk)
+            s.op(rng.choice(["bulk_del", "bulk_del_string"]), h=1, ks=rng.sample(keys, 3))
+            s.op("bulk_get", h=1, ks=rng.sample(keys, 2))
+            s.op("bulk_put", h=1, ks=keys[:2], vs=[vids[2], vids[3]])
+            s.op("bulk_del", h=1, ks=[keys[5], keys[0], keys[7], keys[1], keys[3]])
+            s.op("bulk_put", h=1, ks=[keys[9]], vs=[vids[1]])
+            s.op("bulk_get", h=1, ks=[])
+            s.op("bulk_del", h=1, ks=[])
+            continue
         if r < 0.14:
             s.op(rng.choice(["bulk_get", "bulk_get_string"]), h=1, ks=batch(False))
         elif r < 0.26:
@@ -1219,7 +1307,7 @@ def gen_typed(seed, idbase=0, kt="u64", nb=("BucketsSize", 1), nops=250, name="t
     return s
 
 
-GOLDEN_KINDS = ["small", "large", "many"]
+GOLDEN_KINDS = ["small", "large", "many", "tiny1", "tiny4"]
 
 
 def gen_golden(kind, kt, idbase=0):
@@ -1231,6 +1319,10 @@ def gen_golden(kind, kt, idbase=0):
     if kind == "small":
         nb, nkeys = ["Capacity", 4], 30
         vl = [0, 1, 3, 14, 15, 20, 100, 126, 127, 400]
+    elif kind.startswith("tiny"):
+        # tables with fewer than 8 buckets: the bitmap is a single byte behind the heads
+        nb, nkeys = ["BucketsSize", int(kind[4:])], 12
+        vl = [0, 3, 14, 15, 100]
     elif kind == "large":
         nb, nkeys = ["BucketsSize", 64], 24
         vl = [1100, 2000, 3000, 5000, 1017, 1021]
@@ -1260,7 +1352,12 @@ def gen_golden(kind, kt, idbase=0):
 
     for k in keys:
         put(k, rng.choice(vids))
-    if kind == "small":
+    if kind.startswith("tiny"):
+        for k in rng.sample(keys, 5):
+            dele(k)
+        for k in rng.sample(keys, 4):
+            put(k, rng.choice(vids))
+    elif kind == "small":
         for k in rng.sample(keys, 10):
             dele(k)
         for k in rng.sample(keys, 8):
@@ -1388,6 +1485,45 @@ def gen_sweep(seed, idbase=0, lens=None, kt="bytes", name="sweep"):
         s.op("del", h=1, k=k)
         s.op("del", h=1, k=sb)
     s.op("decode", **dec)
+    s.op("new_process")
+    s.op("decode", dir="d", name="m", native=True)
+    return s
+
+
+def gen_keysweep(seed, idbase=0, klens=None, kt="bytes", name="keysweep"):
+    """C09 for KEY lengths: every length in `klens` stored in a chain between two sentinel keys of the same
+    bucket, found again (the lookup walks over it and compares it), its value overwritten in place and by
+    a relocating length, deleted; decoded after the updates.  Long keys (>= 128 KiB) have a 3-byte
+    slot-size field and a 3-byte length field."""
+    rng = random.Random(seed)
+    s = Script(idbase, design=True, name=name)
+    n = 2
+    s.op("open_db", db=0, dir="d")
+    s.op("map", h=1, db=0, name="m", kt=kt, params={"buckets": ["BucketsSize", n]})
+    dec = dict(dir="d", name="m", flush_h=1, native=True)
+    sa, sb = s.key_in_bucket(9, n, 0), s.key_in_bucket(13, n, 0)
+    va, vb, v3, v200 = s.newval(33), s.newval(77), s.newval(3), s.newval(200)
+    for kl in klens:
+        k = s.key_in_bucket(kl, n, 0) if kl >= 4 else s.key(kl)
+        if not k:
+            continue
+        s.op("put", h=1, k=sa, v=va)
+        s.op("put", h=1, k=k, v=v3)
+        s.op("put", h=1, k=sb, v=vb)
+        s.op("decode", **dec)
+        for q in (sa, k, sb):
+            s.op("get", h=1, k=q)
+        s.op("includes", h=1, k=k)
+        s.op("put", h=1, k=k, v=v200)
+        s.op("decode", **dec)
+        s.op("put", h=1, k=sa, v=v200)
+        s.op("get", h=1, k=k)
+        s.op("get", h=1, k=sb)
+        s.op("iter", h=1, flavour=rng.choice(FLAVOURS))
+        s.op("del", h=1, k=k)
+        s.op("decode", **dec)
+        s.op("del", h=1, k=sa)
+        s.op("del", h=1, k=sb)
     s.op("new_process")
     s.op("decode", dir="d", name="m", native=True)
     return s
